@@ -293,6 +293,7 @@ type scenarioReport struct {
 	Complete       bool   `json:"complete"`
 	Diverged       int    `json:"replay_divergences"`
 	DefaultActions int    `json:"default_schedule_actions"`
+	Why            []string `json:"incomplete_because,omitempty"`
 }
 
 // RunCheck runs a property check and returns the process exit code.
@@ -979,6 +980,10 @@ func runScenarios(c *Check, tier string, scs []*mc.Scenario, deadline time.Time,
 		reports[i].Digests = len(st.Digests)
 		reports[i].MaxLen = st.MaxLen
 		reports[i].Diverged = st.Diverged + st.ReplayDiffs
+		reports[i].Why = append(reports[i].Why, st.Why...)
+		if len(reports[i].Why) == 0 && cur[i] != nil {
+			reports[i].Why = cur[i].Why
+		}
 		if maxBound[i] >= 0 && reports[i].Bound < maxBound[i] {
 			reports[i].Complete = false
 		}
